@@ -7,4 +7,14 @@ def run():
     log("harness built in %.1fs" % t)
     sany_all()
     log("specifications parse")
+    # best effort: pre-build the hooked variants (cfg ystreet_stun_proto_verif) so that the first check does not pay for it
+    try:
+        import hooklib
+        hb = hooklib.build_hooked_harness()
+        log("hooked adapter:", "built" if hb else "does not build (hook-based validation will be skipped)")
+        wd = workdir("setup")
+        t, note = hooklib.run_repo_tests_hooked(wd)
+        log("repository tests with hooks:", note)
+    except Exception as e:       # never fatal
+        log("hook pre-build skipped:", e)
     return 0
